@@ -279,3 +279,14 @@ func vBuildSmallTrees() (int, []string) {
 
 //@ bounded vBuildSmallTrees BuildFormattingStructure on every document of three elements (chain and fork) over 15 display values, with separated and collapsed borders (13 500 documents), 64 counter-property combinations, and 20808 generated-content documents (::before of one or two items and ::after of one item over 17 kinds: the four quote keywords, strings, counters, attr() with string and url types, present and missing, content() of four kinds; under four values of quotes), 88 list-marker documents (11 list-style-type values incl. empty strings and counter styles with empty symbols x position x 4 list-item counter settings): no panic, the root is a block
 //@   props C01
+
+// css-page-3 §5.3: a box starts on the page its FIRST in-flow child starts on and ends on the page its LAST
+// in-flow child ENDS on (when those children name a page), its own `page` value otherwise.
+//@ func (*BoxFields).PageValues
+//@   props C12
+//@   modifies anything
+//@   unclaimed call-*-pre* "box accessors"
+//@   loop 1 step[first-kept-last-updated] (lastChild == child && fistChild == ite(old(fistChild) == nil, child, old(fistChild))) || (lastChild == old(lastChild) && fistChild == old(fistChild))
+//@   assert after start#2: start == first(fistChild.PageValues()) && start != ""
+//@   assert after end#2: end == second(lastChild.PageValues()) && end != ""
+//@   assert after end#1: end == b.Style.GetPage()
